@@ -353,6 +353,10 @@ def _oracle_base(case, v, d, text):
                 fails.append(("twos-complement", f"reads {u - (1 << u.bit_length())} at its printed width"))
             elif u.bit_length() < 32:
                 fails.append(("twos-width", "narrower than 32 bits"))
+            elif u.bit_length() != max(32, (-i - 1).bit_length() + 1):
+                # "minimum 32-bit precision" (cell._twos_complement), otherwise the narrowest width that holds the value:
+                # a wider print repeats the sign bit as an extra leading digit
+                fails.append(("twos-width", f"printed at {u.bit_length()} bits, the narrowest width (at least 32) is {max(32, (-i - 1).bit_length() + 1)}"))
             else:
                 return None
             continue
